@@ -409,6 +409,9 @@ def _get_non_expression_leaves(expression: exp.Expr) -> Iterator[tuple[str, t.An
 
         if (
             value is None
+            # like equality, an absent arg, False and an empty list are all the same
+            or value is False
+            or (isinstance(value, list) and not value)
             or isinstance(value, exp.Expr)
             or (isinstance(value, list) and isinstance(seq_get(value, 0), exp.Expr))
         ):
